@@ -113,17 +113,31 @@ def main():
     ap.add_argument("--lean", required=True)
     ap.add_argument("--work", default="/tmp/tie_selftest_fieldsinv")
     ap.add_argument("--only", default=None, help="regex on mutation ids")
+    ap.add_argument("--skip-missing", action="store_true",
+                    help="skip mutations whose token does not occur in --repo (a snapshot with a refactoring applied)")
     a = ap.parse_args()
     gen_dir = os.path.join(a.lean, "PyEcc", "Gen")
     env = dict(os.environ)
     env["PATH"] = "/opt/veriftools/lean/bin:" + env["PATH"]
     results = []
     muts = [m for m in MUTATIONS if a.only is None or re.search(a.only, m[0])]
+    skipped = []
+    # the generated files of the (possibly refactored) tree under test are the baseline
+    rc0, info0 = regenerate(a.repo, gen_dir)
+    if rc0 != 0:
+        raise SystemExit(f"the tree under test does not regenerate: {info0}")
     for mid, rel, fn, old, new, occ in muts:
         repo_mut = os.path.join(a.work, "repo_mut")
         shutil.rmtree(repo_mut, ignore_errors=True)
         shutil.copytree(a.repo, repo_mut, ignore=shutil.ignore_patterns(".git", "__pycache__", ".tox", "*.pyc"))
-        mutate(repo_mut, rel, fn, old, new, occ)
+        try:
+            mutate(repo_mut, rel, fn, old, new, occ)
+        except SystemExit as ex:
+            if not a.skip_missing:
+                raise
+            skipped.append(mid)
+            print(f"{mid:18s} skipped: {ex}", flush=True)
+            continue
         gen_out = os.path.join(a.work, "Gen")
         shutil.rmtree(gen_out, ignore_errors=True)
         shutil.copytree(gen_dir, gen_out)
@@ -160,7 +174,8 @@ def main():
     r = run(["lake", "build"] + TARGETS, cwd=a.lean, env=env)
     print("pristine rebuild:", "ok" if r.returncode == 0 else "FAILED\n" + r.stdout[-2000:])
     bad = [x for x in results if x[4].startswith("NOT")]
-    print(json.dumps({"mutations": len(results), "caught": len(results) - len(bad), "not_caught": [x[0] for x in bad]}))
+    print(json.dumps({"mutations": len(results), "caught": len(results) - len(bad), "not_caught": [x[0] for x in bad],
+                      "skipped": len(skipped)}))
     return 1 if bad or r.returncode != 0 else 0
 
 
